@@ -68,7 +68,7 @@ func (g *gen) doIntrinsic(x *ssa.Call, full string) bool {
 	case "(binary.bigEndian).Uint16", "(binary.bigEndian).Uint32", "(binary.bigEndian).Uint64":
 		n := map[string]int{"(binary.bigEndian).Uint16": 2, "(binary.bigEndian).Uint32": 4, "(binary.bigEndian).Uint64": 8}[full]
 		b := g.operand(args[len(args)-1])
-		if g.unit.NoPanic {
+		if g.noPanic() {
 			g.oblige("nopanic", g.npName("index"), "binary.BigEndian read within bounds", g.idxLe(g.idxLit(int64(n)), sx("s.len", b.S)), x.Pos())
 		}
 		h := g.heapSlice(bvSort(8))
@@ -87,7 +87,7 @@ func (g *gen) doIntrinsic(x *ssa.Call, full string) bool {
 		n := map[string]int{"(binary.bigEndian).PutUint16": 2, "(binary.bigEndian).PutUint32": 4, "(binary.bigEndian).PutUint64": 8}[full]
 		b := g.operand(args[len(args)-2])
 		v := g.operand(args[len(args)-1])
-		if g.unit.NoPanic {
+		if g.noPanic() {
 			g.oblige("nopanic", g.npName("index"), "binary.BigEndian write within bounds", g.idxLe(g.idxLit(int64(n)), sx("s.len", b.S)), x.Pos())
 		}
 		h := g.heapSlice(bvSort(8))
